@@ -162,7 +162,7 @@ def table_pair(left, right):
     return {FACE: t}
 
 
-def run(P, table, vector=None, widths=None, padding=None, n_faces=2, other_component="auto", dims_scalar=None, partner_dims_swapped=False, prune=False):
+def run(P, table, vector=None, widths=None, padding=None, n_faces=2, other_component="auto", dims_scalar=None, partner_dims_swapped=False, prune=False, grid_boundary=None):
     """vector: None (scalar), 'parallel' (component along AX, the padded axis) or 'tangential' (component along AY)."""
     w = Lin.sym("w")
     # prune: the coordinate-bookkeeping test (`<dim> in <slice>.coords`) is taken as False; it does not influence
@@ -175,7 +175,8 @@ def run(P, table, vector=None, widths=None, padding=None, n_faces=2, other_compo
         return make_da(name, dims, dims0=tuple(dims), n_faces=n_faces)
 
     def make():
-        g = make_grid(("AX", "AY"), face_connections=copy.deepcopy(table), facedim=FACE)
+        # grid_boundary: the Grid-level default rule of both axes (a word), else an opaque value equal to no word
+        g = make_grid(("AX", "AY"), face_connections=copy.deepcopy(table), facedim=FACE, **({"boundary": grid_boundary} if grid_boundary else {}))
         if vector is None:
             da = mk("MAIN", dims_scalar or [Sym("t"), FACE, dimsym("AY", "center"), dimsym("AX", "center")])
             oc = None
